@@ -198,7 +198,12 @@ def scenarios(quick):
 
 def run(ctx):
     bound = 1 if ctx.quick else 2
-    jobs = [(sc, bound, 3000 if ctx.quick else 20000) for sc in scenarios(ctx.quick)]
+    if ctx.quick:
+        jobs = [(sc, 1, 3000) for sc in scenarios(True)]
+    else:
+        # all 36 scenarios with one preemption; two preemptions for the requests that shorten the subscription
+        jobs = [(sc, 1, 20000) for sc in scenarios(False)]
+        jobs += [(sc, 2, 6000) for sc in scenarios(False) if sc[1] == 'renew5' and sc[2] != 'report+housekeeping']
     ctx.note('race_scenarios', len(jobs))
     ctx.note('race_preemption_bound', bound)
     ctx.note('race_rule', 'Renew(5)/Renew(99)/GetStatus of a live subscription (11 s granted, 8 s elapsed) || metric report || one '
